@@ -200,6 +200,8 @@ func loopProgress(c *core.Ctx, r *core.Rule) {
 			switch {
 			case a.LB >= 1:
 				r.OK(key, p.InstrPos(a.At), fmt.Sprintf("advances by at least %d per iteration", a.LB))
+			case a.Taint && a.LB <= 0 && a.LBNoWrap >= 1:
+				r.Undecided(key, p.InstrPos(a.At), "positive unless narrow arithmetic wraps; whether a wrapping value can pass the dominating guards is not decided")
 			case a.Taint && a.LB <= 0 && a.LB > -1<<30 && exitsIndependent(a) == false:
 				r.Violate(key, p.InstrPos(a.At), "the loop advances by a value taken from the packet that may be 0 (no guard establishes >= 1): an input with that field zero is re-parsed forever — decoding never returns (and appends to the layer until memory is exhausted)", nil)
 			default:
